@@ -815,10 +815,10 @@ def shrink_case(c):
 def run(ctx):
     build = leanbuild.ensure(PROPERTY, THEOREMS, thorough=ctx.thorough, extractors=['SchedLock'])
     n, maxlen = (80000, 60) if ctx.thorough else (4000, 40)
-    cases, lines, spans = explore('c18', n, maxlen, load_corpus(), budget=(780.0 if ctx.thorough else 75.0),
+    cases, lines, spans = explore('c18', n, maxlen, load_corpus(), budget=(600.0 if ctx.thorough else 60.0),
                                   n_plugin=(2500 if ctx.thorough else 220), plugin_corpus=load_plugin_corpus(),
                                   n_thread=(20000 if ctx.thorough else 1500), thread_corpus=load_thread_corpus(),
-                                  n_heap=(40000 if ctx.thorough else 1500))
+                                  n_heap=(20000 if ctx.thorough else 1500))
     if build.driver_ok:
         fill_model(cases, lines, spans)
     for i, c in enumerate(cases):
